@@ -72,6 +72,8 @@ def strat_case(draw, tier):
     us = [draw(st.floats(0.01, 0.99)) for _ in range(n_j)]
     return {"sim": sim, "mode": mode, "dates": dates, "counts": counts, "fracs": fracs, "jumps": jumps, "ws": ws,
             "us": us, "eps_rel": draw(st.sampled_from([2.0, 0.9, 0.35, 0.11])), "sigma": draw(_f(0.05, 0.4)),
+            # a pure-jump model of infinite variation: the chain's diffusion part is then the small-jump substitute only
+            "infinite_variation": draw(st.sampled_from([False, False, True])),
             "method": draw(st.sampled_from(["INVERSION", "BINARYSEARCHTREEADAPTED1D", "ALIAS", "BINARYSEARCHTREE"])),
             "level": draw(st.integers(1, 2))}
 
@@ -196,6 +198,8 @@ def body(case):
     tag = f"C15/{sim}/{mode}/{'one-date' if nd == 1 else 'many-dates'}"
     spec = {"family": "hem", "params": {"sigma": case["sigma"], "p": 0.5, "eta1": 10.0, "eta2": 10.0, "intensity": 3.0},
             "exp": None}
+    if case.get("infinite_variation") and sim != "levy":  # (the direct simulator needs a finite jump intensity)
+        spec = {"family": "cgmy", "params": {"c": 0.5, "g": 8.0, "m": 9.0, "y": 1.3}, "exp": None}
     model = build_model(spec)
     product = _product(dates, stochastic_dates=(mode != "fixed"))
     eps = case["eps_rel"] * T if mode == "maxstep" else None
@@ -225,7 +229,7 @@ def body(case):
                 ps._brownian_increments = deque([[list(case["ws"][:nd])]])
             normal.used = 0
             path = proc.simulate_one_path()
-            ref = _reference(case, [0.125 * k for k in case["jumps"]], case["sigma"], mode, eps)
+            ref = _reference(case, [0.125 * k for k in case["jumps"]], float(model.diffusion_coefficient()), mode, eps)
             _compare(tag, path, ref, out, detail)
             if mode == "fixed" and (len(ps._poisson_rv) or len(ps._brownian_increments)):
                 out.append(Violation(f"{tag}/pre-drawn-rows-not-consumed", detail))
@@ -322,6 +326,7 @@ def classify(case):
               "no-jump" if nz == 0 else ("jumps-in-1-interval" if nz == 1 else "jumps-in-2+-intervals")]
     if case["sim"] != "levy":
         labels.append(case["method"])
+    labels.append("infinite-variation" if case.get("infinite_variation") else "finite-variation")
     nt = (nd >= 2 and nz >= 2) or (case["mode"] == "maxstep" and case["eps_rel"] < 1) or \
         (case["counts"][-1] == 0 and nz >= 1)
     return labels, nt
@@ -563,18 +568,18 @@ SUBCHECKS = [
                   "none) / jump times / sizes or states / Brownian increments / coupling uniforms; the returned path "
                   "vs the harness re-assembly; non-trivial = jumps in >= 2 intervals of >= 2 dates, or a gap after the "
                   "last jump, or inserted points",
-             strategy=strat_case, budget={"quick": 480, "thorough": 8000}, shards={"quick": 16, "thorough": 16},
+             strategy=strat_case, budget={"quick": 1440, "thorough": 8000}, shards={"quick": 16, "thorough": 16},
              essential_labels=("levy", "chain", "coupling", "fixed", "jumptimes", "maxstep", "many-dates")),
     SubCheck("scripted-simulators-copula", body_copula, classify_copula,
              rule="MarkovChainLevyCopula and CouplingProcessLevyCopula (level 1), d in {2,3}, same scripted collaborators "
                   "as the 1-d sub-check (states are tuples; Brownian increments are d x n matrices multiplied by the "
                   "process's diffusion matrix); the coarse increments are those the coupling itself returns for the "
                   "scripted uniforms (the kernel is C03's subject), the assembly into running sums is checked here",
-             strategy=strat_copula, budget={"quick": 256, "thorough": 4000}, shards={"quick": 16, "thorough": 16},
+             strategy=strat_copula, budget={"quick": 768, "thorough": 4000}, shards={"quick": 16, "thorough": 16},
              essential_labels=("copula-chain", "copula-coupling", "many-dates")),
     SubCheck("build-finer-grid", body_finer, classify_finer,
              rule="the finer-grid builders (direct/chain version and fine+coarse helper, scalar and 2-3 dimensional "
                   "values) on drawn time/value arrays and caps: steps <= cap, original pairs kept in order, inserted "
                   "points repeat the preceding value, fine and coarse aligned; non-trivial = cap below the largest gap",
-             strategy=strat_finer, budget={"quick": 800, "thorough": 12000}),
+             strategy=strat_finer, budget={"quick": 2400, "thorough": 12000}),
 ]
